@@ -294,3 +294,35 @@ func VerifC08_MustFail() {
 	v.sock.deliver(verifEncode(m, 60), src)
 	verifAssert(len(v.sock.sent) == 0, "twin: a ping is never answered (must fail)")
 }
+
+
+// Two queries from two sources handed to the socket back to back (their reply goroutines overlap):
+// each source gets exactly one datagram, its own.
+func VerifC08_TwoSources() {
+	verifLimiterAlwaysGrants()
+	v := verifStartServer(verifSrvOpt{noSecurity: true})
+	verifFixTokenClock(v.s)
+	v.lean = true
+	s1 := &net.UDPAddr{IP: net.IP{192, 0, 2, 1}, Port: 1001}
+	s2 := &net.UDPAddr{IP: net.IP{192, 0, 2, 2}, Port: 1002}
+	q1 := verifInboundQuery(v, verifGroupPlain, []int{2}, s1)
+	q2 := verifInboundQuery(v, verifGroupLookup, []int{2}, s2)
+	v.sock.in <- verifDatagram{b: verifEncode(q1.m, 60), n: -1, addr: s1}
+	v.sock.in <- verifDatagram{b: verifEncode(q2.m, 60), n: -1, addr: s2}
+	verifQuiesce()
+	n1, n2 := 0, 0
+	for _, w := range v.sock.sent {
+		switch {
+		case verifSameUDP(w.addr, s1):
+			n1++
+			verifAssert(w.msg.T == q1.m.T, "C08: the first asker gets its own transaction id back")
+		case verifSameUDP(w.addr, s2):
+			n2++
+			verifAssert(w.msg.T == q2.m.T, "C08: the second asker gets its own transaction id back")
+		default:
+			verifFail("C08: a datagram goes to somebody who did not ask")
+		}
+	}
+	verifAssert(n1 == 1 && n2 == 1, "C08: each of two overlapping queries gets exactly one datagram")
+	verifReach("end")
+}
